@@ -1,5 +1,5 @@
 CONSTANTS
-  NInner = 3
+  NInner = 2
   NStop = 1
   Budget = 1
   Variant = "ok"
